@@ -1942,6 +1942,7 @@ impl<'p> Evaluator<'_, 'p> {
         let func = self.value_stack.pop().unwrap();
 
         let func = self.expect_std_func_arg_func(func, "flatMap", 0)?;
+        let (_, func_env) = self.get_func_info(&func);
 
         match arr {
             ValueData::String(s) => {
@@ -1949,12 +1950,18 @@ impl<'p> Evaluator<'_, 'p> {
                 self.state_stack.push(State::StringToValue);
 
                 for chr in s.chars().rev() {
-                    let args_thunks = Box::new([self
+                    let args_thunks = [self
                         .program
-                        .gc_alloc(ThunkData::new_done(ValueData::from_char(chr)))]);
+                        .gc_alloc_view(ThunkData::new_done(ValueData::from_char(chr)))];
 
                     self.state_stack
                         .push(State::FnFallible(Self::do_std_flat_map_string_part));
+                    let args_thunks = self.check_call_thunk_args(
+                        &func.params,
+                        &args_thunks,
+                        &[],
+                        func_env.clone(),
+                    )?;
                     self.execute_call(&func, args_thunks);
                 }
 
@@ -1967,10 +1974,16 @@ impl<'p> Evaluator<'_, 'p> {
                 self.state_stack.push(State::ArrayToValue);
 
                 for item in array.iter().rev() {
-                    let args_thunks = Box::new([item.clone()]);
+                    let args_thunks = [item.view()];
 
                     self.state_stack
                         .push(State::FnFallible(Self::do_std_flat_map_array_part));
+                    let args_thunks = self.check_call_thunk_args(
+                        &func.params,
+                        &args_thunks,
+                        &[],
+                        func_env.clone(),
+                    )?;
                     self.execute_call(&func, args_thunks);
                 }
 
